@@ -842,4 +842,20 @@ def SysObj.model [Add K] [Sub K] [Mul K] [Div K] [One K] [IntCast K]
      { s with bobj := s.bobj.recipVects.2 })
   else (systemModelR fac boxUnit pu s.toSystem (fun p => (s.bobj.cartToRel p).1), s)
 
+/-- the flat `pos` buffer of the object's atoms (empty when there is no float `pos`). -/
+def SysObj.positions (s : SysObj K) : List K :=
+  match s.atoms.props.lookup "pos" with
+  | some ⟨_, .flt l⟩ => l
+  | _ => []
+
+/-- `system.atoms.pos[i, j] = v`: an in-place edit of one coordinate through the array the object hands out
+    (flat index `3 i + j`).  Only the per-atom data change: the `Box` object and whatever it keeps are untouched. -/
+def SysObj.setPosAt (s : SysObj K) (i : Nat) (v : K) : SysObj K :=
+  { s with atoms := ⟨s.atoms.natoms, s.atoms.props.map (fun e =>
+      if e.1 = "pos" then
+        match e.2 with
+        | ⟨sh, .flt l⟩ => (e.1, ⟨sh, .flt (l.set i v)⟩)
+        | a => (e.1, a)
+      else e)⟩ }
+
 end Atomman.C10
